@@ -19,7 +19,8 @@ EXTENDS Integers, Sequences, FiniteSets, TLC
 CONSTANTS SHAPES,     \* base structures [N, R, scale] (scale: "unit" or "tiny" = all leaves times 1e-8)
           DEPTH,      \* nesting depth of the body
           TRACK       \* tracked sets: "x", "x0" (first core of x only), "xl" (core_indices = [d-1]), "xr" (core_indices = [d-1, 0],
-                      \* unsorted and not a prefix), "y", "xy" (watch_list), "wx" (operands of different order)
+                      \* unsorted and not a prefix), "xw2" (two watch calls, [0] then [d-1], gradients of both asked), "y", "xy" (watch_list),
+                      \* "wx" (operands of different order)
 
 VARIABLES s, body, head, red, track
 vars == <<s, body, head, red, track>>
@@ -66,8 +67,8 @@ Init == /\ s \in SHAPES /\ body \in Bodies(DEPTH) /\ head \in Heads /\ red \in R
         \*  programs whose dense value is exactly 0)
         /\ ~(body.op = "sub" /\ body.a = body.b /\ red = "norm")
         \* the tracked operand has to occur in the program (otherwise there is nothing to differentiate)
-        /\ (track \in {"x", "x0", "xl", "xr"} => Uses(body, "x"))
-        /\ (track \in {"xl", "xr"} => Len(s.N) >= 2)
+        /\ (track \in {"x", "x0", "xl", "xr", "xw2"} => Uses(body, "x"))
+        /\ (track \in {"xl", "xr", "xw2"} => Len(s.N) >= 2)
         /\ (track = "y" => Uses(body, "y") \/ head \in {"cat", "kron"})
         \* operands of different order tracked together (watch_list / grad_list over a list of tensors)
         /\ (track = "wx" => head = "bcast" /\ Uses(body, "x"))
